@@ -19,7 +19,8 @@ LEVEL_TEXT = ('Every golden source x every subset of at most 1 (quick) / 2 (thor
               'removed, INCLUDE wrapper, macro wrapper), and every (line, kind) single-line application for the line-local kinds, is assembled and '
               'converted; the image must equal the recorded .ori. Applicability predicates are derived from the manual\'s input format rules.'
               ' Two more kinds rewrite the first blank run inside the operand field (TAB, TAB+blank) where that field carries sub-fields: RPTC/RPTZ, [condition], OP, and DSP56xxx parallel moves.'
-              ' Added in the last round: symbol case changed on single lines, structure bit elements referring to siblings.')
+              ' Added in the last round: symbol case changed on single lines, structure bit elements referring to siblings.'
+              ' A generated source with named symbol stacks has the stack names rewritten by the symbol-case kind.')
 LEVEL_NOTE = ('Trusted: recorded .ori images; the rewriters. Exemptions (documented in DESIGN.md): lines with an odd number of quote characters for '
               'comment appending, ISA-significant register case (symbol case flips only symbols the source defines), macro wrapper only for '
               'sources without second CPU statement / symbol-defining pseudo instructions / END.')
